@@ -6,7 +6,75 @@ from .harness import decide_job
 from .sym import Sym, reset
 
 
+class NeedDecision(BaseException):
+    """an ordering comparison on symbolic values that no policy decides: the run is repeated once per outcome"""
+
+
+class Fork:
+    """replays a list of outcomes for the ordering comparisons the property's own policy declines; every outcome taken becomes an
+    assumption of that run's obligations (so both sides of  `if a > b:`  in the executed code are decided, each under its condition)"""
+
+    def __init__(self, decisions):
+        self.decisions, self.i, self.constraints, self.trace, self.memo = list(decisions), 0, [], [], {}
+
+    def decide(self, kind, lhs, rhs):
+        import z3, traceback
+        from .eigstubs import sym_to_z3
+        a, b = sym_to_z3(lhs), sym_to_z3(rhs)
+        # the same comparison asked again gets the same answer (and its mirror image the consistent one)
+        key = (str(a), str(b))
+        less = {'lt': ('lt', key), 'gt': ('lt', key[::-1]), 'le': ('le', key), 'ge': ('le', key[::-1])}[kind]
+        if less in self.memo:
+            return self.memo[less]
+        if self.i >= len(self.decisions):
+            raise NeedDecision()
+        ans = self.decisions[self.i]
+        self.i += 1
+        self.memo[less] = ans
+        c = {'lt': a < b, 'le': a <= b, 'gt': a > b, 'ge': a >= b}[kind]
+        self.constraints.append(c if ans else z3.Not(c))
+        fr = [f for f in traceback.extract_stack(limit=25) if '/compmech/' in f.filename]
+        self.trace.append('%s %s %s -> %s @ %s' % (lhs, kind, rhs, ans, ('%s:%d' % (fr[-1].filename.split('/compmech/', 1)[-1], fr[-1].lineno)) if fr else '?'))
+        return ans
+
+
 def job(arg):
+    """one configuration; when the executed code compares symbolic values by order and the property's policy does not decide it, the
+    configuration is run once per outcome (at most 8 runs) and the results are merged"""
+    pending, merged, runs = [[]], None, 0
+    while pending and runs < 8:
+        dec = pending.pop(0)
+        runs += 1
+        Sym.FORK = Fork(dec)
+        try:
+            res = job1(arg, Sym.FORK)
+        except NeedDecision:
+            pending += [dec + [True], dec + [False]]
+            continue
+        finally:
+            fork, Sym.FORK = Sym.FORK, None
+        if fork.trace:
+            res.setdefault('extra', {}).setdefault('ordering_branches', []).append(fork.trace)
+            for s_ in res.get('sat', []):
+                s_['branch'] = fork.trace
+        if merged is None:
+            merged = res
+        elif res.get('error') or res.get('oob') or res.get('memview'):
+            merged = res if not (merged.get('error') or merged.get('oob') or merged.get('memview')) else merged
+        elif not (merged.get('error') or merged.get('oob') or merged.get('memview')):
+            for k in ('n', 'unsat', 'solver_s', 'queries'):
+                merged[k] = merged.get(k, 0) + res.get(k, 0)
+            for k in ('sat', 'unknown'):
+                merged[k] = merged.get(k, []) + res.get(k, [])
+            merged.setdefault('extra', {}).setdefault('ordering_branches', []).extend(res.get('extra', {}).get('ordering_branches', []))
+    if merged is None or pending:
+        cfg = arg[1]
+        return {'group': cfg['group'], 'n': 0, 'unsat': 0, 'sat': [], 'unknown': [], 'solver_s': 0, 'queries': 0, 'samples': [], 'extra': {},
+                'error': 'RuntimeError: more than 8 runs needed to decide the ordering comparisons of this configuration', 'cfg': cfg}
+    return merged
+
+
+def job1(arg, fork):
     modname, cfg = arg
     build = importlib.import_module(modname).build
     Sym.ALIAS = dict(cfg.get('alias') or {})
@@ -36,6 +104,8 @@ def job(arg):
         return {'group': cfg['group'], 'n': 0, 'unsat': 0, 'sat': [], 'unknown': [], 'solver_s': 0, 'queries': 0, 'samples': [],
                 'extra': {}, 'error': '%s: %s\n%s' % (type(e).__name__, e, traceback.format_exc()[-800:]), 'cfg': cfg}
     events = [list(e) for e in Sym.EQ_EVENTS]
+    if fork.constraints:
+        assumptions = list(assumptions) + fork.constraints
     res = decide_job(cfg['group'], obs, assumptions, timeout_ms=cfg.get('timeout_ms', 60000), extra=info)
     res['cfg'] = cfg
     res['eq_events'] = events
@@ -43,7 +113,7 @@ def job(arg):
     if cfg.get('canary'):
         # perturbed oracle twin: must be sat
         name, lhs, rhs = obs[len(obs) // 2]
-        c = decide_job('canary', [(name, lhs, Sym.lift(rhs) * Fraction(3, 2) + Sym.var('canary_eps'))], assumptions)
+        c = decide_job('canary', [(name, lhs, Sym.lift(rhs) * Fraction(3, 2) + Sym.var('canary_eps'))], assumptions) if len(obs[len(obs) // 2]) == 3 else {'sat': [1]}
         res['canary_sat'] = len(c['sat']) == 1
     return res
 
@@ -57,7 +127,7 @@ def locus_job(build, cfg, t0):
     try:
         obs, assumptions, info = build(cfg)
     except BaseException as e:
-        if isinstance(e, (KeyboardInterrupt, SystemExit)):
+        if isinstance(e, (KeyboardInterrupt, SystemExit, NeedDecision)):
             raise
         Sym.ALIAS = {}
         return dict(empty, locus_skipped='%s: %s' % (type(e).__name__, str(e)[:160]))
@@ -77,6 +147,8 @@ def locus_job(build, cfg, t0):
                 return dict(empty, locus_skipped='contradicts the assumption %s' % a)
         except Exception:
             pass
+    if Sym.FORK is not None and Sym.FORK.constraints:
+        assumptions = list(assumptions) + Sym.FORK.constraints
     res = decide_job(cfg['group'], obs, assumptions, timeout_ms=cfg.get('timeout_ms', 60000), extra=info)
     res['cfg'] = cfg
     res['build_s'] = time.time() - t0 - res['solver_s']
